@@ -147,6 +147,8 @@ pub assume_specification [<provisioning::RevocationRequest as Clone>::clone] (n:
     U.add(SPEC)
     km = 'obeys_key_model::<ChildHandle>() && obeys_key_model::<KeyIdentifier>()'
     U.impl('impl TrustAnchorSigner', [
+        # lookups in the recorded exchanges (iterator find; results unconstrained): declared so that code consulting them is decided
+        U.fn(SG, 'TrustAnchorSigner', 'get_exchange', external_body=True),
         U.fn(SG, 'TrustAnchorSigner', 'process_signer_request', clone_loops=(1,), attrs=['#[verifier::loop_isolation(false)]'],
              requires=[('km', km)],
              ensures=[
